@@ -427,6 +427,39 @@ pub fn run_c09(ctx: &Ctx) {
     idx += 1;
     judge(idx, "async/unchecked-target+typed-return".into(), false, false, "async unchecked <- u32".into(), None, &mut |inj| unsafe { inj.when_called_async_unchecked(injectorpp::async_func_unchecked!(as_u32())) }.will_return_async(injectorpp::async_return!(5u32, u32)), &mut accepted, &mut refused, &mut by_msg, &mut lifetime_outcomes);
     idx += 1;
+    // (4) the check is about declared types, every time: after a pair of functions has been accepted once, the SAME two
+    // addresses presented with other declared types are still refused
+    {
+        #[inline(never)]
+        fn again_t(a: i32, _b: &u8) -> i64 {
+            std::hint::black_box(a as i64 + 5000)
+        }
+        #[inline(never)]
+        fn again_r(a: i32, _b: &u8) -> i64 {
+            std::hint::black_box(a as i64 + 6000)
+        }
+        let ta = again_t as usize;
+        let ra = again_r as usize;
+        // first the well-typed pairing (accepted), in its own lifetime
+        judge(idx, "again/0-well-typed".into(), true, false, "fn(i32, &u8) -> i64 <- fn(i32, &u8) -> i64 (first time)".into(), None, &mut |inj| inj.when_called(injectorpp::func!(again_t, fn(i32, &u8) -> i64)).will_execute_raw(injectorpp::func!(again_r, fn(i32, &u8) -> i64)), &mut accepted, &mut refused, &mut by_msg, &mut lifetime_outcomes);
+        idx += 1;
+        let later: Vec<(&str, Box<dyn Fn(&mut InjectorPP)>)> = vec![
+            ("replacement-now-declared-unsafe", Box::new(|inj: &mut InjectorPP| inj.when_called(injectorpp::func!(again_t, fn(i32, &u8) -> i64)).will_execute_raw(injectorpp::func!(again_r, unsafe fn(i32, &u8) -> i64)))),
+            ("target-now-declared-unsafe", Box::new(|inj: &mut InjectorPP| inj.when_called(injectorpp::func!(again_t, unsafe fn(i32, &u8) -> i64)).will_execute_raw(injectorpp::func!(again_r, fn(i32, &u8) -> i64)))),
+            ("replacement-now-untyped", Box::new(move |inj: &mut InjectorPP| inj.when_called(injectorpp::func!(again_t, fn(i32, &u8) -> i64)).will_execute_raw(fp(ra, "")))),
+            ("target-now-untyped", Box::new(move |inj: &mut InjectorPP| unsafe { inj.when_called_unchecked(fp(ta, "")) }.will_execute_raw(injectorpp::func!(again_r, fn(i32, &u8) -> i64)))),
+        ];
+        for (name, f) in later.iter() {
+            // each variant twice: an implementation that remembers decisions must not learn the wrong one either
+            for rep in 0..2 {
+                judge(idx, format!("again/{}/{}", name, rep), false, false, format!("same two functions as accepted before, {}", name), None, &mut |inj| f(inj), &mut accepted, &mut refused, &mut by_msg, &mut lifetime_outcomes);
+                idx += 1;
+            }
+        }
+        // and the well-typed pairing is still accepted afterwards
+        judge(idx, "again/9-well-typed".into(), true, false, "fn(i32, &u8) -> i64 <- fn(i32, &u8) -> i64 (after the refusals)".into(), None, &mut |inj| inj.when_called(injectorpp::func!(again_t, fn(i32, &u8) -> i64)).will_execute_raw(injectorpp::func!(again_r, fn(i32, &u8) -> i64)), &mut accepted, &mut refused, &mut by_msg, &mut lifetime_outcomes);
+        idx += 1;
+    }
     let bm = by_msg.iter().fold(J::new(), |j, (k, v)| j.n(k, *v));
     out::summary(&J::new().n("family_members", fam.len()).n("pairs_total", idx).n("accepted", accepted).n("refused", refused).o("outcomes", bm).arr_s("lifetime_spelling_pairs_not_judged", &lifetime_outcomes));
 }
@@ -500,6 +533,24 @@ pub fn run_c10_gate(ctx: &Ctx) {
     #[inline(never)] fn n18() -> Option<bool> { std::hint::black_box(Some(false)) }
     #[inline(never)] fn n19() -> (bool,) { (std::hint::black_box(false),) }
     #[inline(never)] fn n20() -> std::sync::atomic::AtomicBool { std::sync::atomic::AtomicBool::new(false) }
+    // types that are merely NAMED like bool
+    mod w {
+        #[allow(clippy::upper_case_acronyms)]
+        pub struct BOOL(pub i32);
+        pub enum Bool {
+            No,
+            Yes,
+            Maybe,
+        }
+        #[allow(non_camel_case_types)]
+        pub struct bool(pub [u64; 3]);
+    }
+    #[inline(never)] fn n21() -> w::BOOL { w::BOOL(std::hint::black_box(7)) }
+    #[inline(never)] fn n22() -> w::Bool { if std::hint::black_box(true) { w::Bool::Maybe } else if std::hint::black_box(false) { w::Bool::Yes } else { w::Bool::No } }
+    #[inline(never)] fn n23() -> w::bool { w::bool([std::hint::black_box(1), 2, 3]) }
+    gate!("fn()->w::BOOL", false, n21, fn() -> w::BOOL, |_v: core::primitive::bool| true);
+    gate!("fn()->w::Bool", false, n22, fn() -> w::Bool, |_v: core::primitive::bool| true);
+    gate!("fn()->w::bool", false, n23, fn() -> w::bool, |_v: core::primitive::bool| true);
     gate!("fn()->Poll<bool>", false, n17, fn() -> std::task::Poll<bool>, |_v: bool| true);
     gate!("fn()->Option<bool>", false, n18, fn() -> Option<bool>, |_v: bool| true);
     gate!("fn()->(bool,)", false, n19, fn() -> (bool,), |_v: bool| true);
